@@ -159,6 +159,29 @@ def gql_names(schema):
     return names
 
 
+def collateral_of_type(schema, tname):
+    """Elements that go away with a hidden type: members typed with it and
+    their arguments, arguments and input fields of that type, its own
+    members."""
+    gone = set()
+    for name, t in schema.types.items():
+        if isinstance(t, (ObjectType, InterfaceType)):
+            for f in t.fields:
+                if name == tname or _named(f.type).name == tname:
+                    gone.add(("field", name, f.name))
+                    for a in f.arguments:
+                        gone.add(("arg", name, f.name, a.name))
+                else:
+                    for a in f.arguments:
+                        if _named(a.type).name == tname:
+                            gone.add(("arg", name, f.name, a.name))
+        if isinstance(t, InputObjectType):
+            for f in t.fields:
+                if name == tname or _named(f.type).name == tname:
+                    gone.add(("input_field", name, f.name))
+    return gone
+
+
 def introspected_names(schema):
     r = graphql_blocking(schema, introspection_query())
     if r.errors:
@@ -300,6 +323,11 @@ class FlagDirective(SchemaDirective):
 
     def on_field(self, field):
         return None if field.name != "id" else field
+
+    def on_object(self, object_type):
+        # applied to a type it changes nothing (the inherited visitor method
+        # would walk the members with on_field above)
+        return object_type
 
 
 def flagged_fields(schema):
@@ -586,6 +614,34 @@ def run_machine(draws, state, tier):
                     fail("removed_reachable", ("field", "query"),
                          "hidden root field %r can still be queried" % fname)
                     break
+
+        # ---- nothing else disappeared ----------------------------------------
+        if op in (0, 1, 2, 3, 6):
+            before = gql_names(src.schema)
+            gone = set()
+            targets = []
+            if hidden is not None:
+                targets.append(hidden)
+            if op == 6:
+                targets.extend(flagged)
+            for h in targets:
+                gone.add(h)
+                if h[0] == "type":
+                    gone |= collateral_of_type(src.schema, h[1])
+                elif h[0] == "field":
+                    gone |= {n for n in before
+                             if n[0] == "arg" and n[1:3] == h[1:3]}
+            expect = before - gone
+            if op in (2, 3):
+                expect = {_rename_key(n) if n[0] != "directive" else n
+                          for n in expect}
+            missing = sorted(expect - gql_names(new))
+            if missing:
+                fail("attribute_lost", (opname, "element:" + missing[0][0]),
+                     "%s of live[%d] (%s): %r disappeared although the "
+                     "operation did not target it" % (opname, li, src.origin,
+                                                      missing[0]))
+                break
 
         # ---- preservation --------------------------------------------------
         new_attrs = attributes(new)
